@@ -13,7 +13,8 @@ def run(ctx, rep):
         "valid hint the result is g(t).  The rule checks G1/G2 as exact rejected sets dominating every return, the scan against "
         "schema S2 (start = hint, end = last, strict >, returns the scanned index, default last), that the query depends on (tick, "
         "index) only, that every hint at the 6 hinted call sites is 0 / the same list's predecessor cursor / the carried cursor, and "
-        "that each stored cursor is the index returned by the very query whose time is stored.")
+        "that each stored cursor is the index returned by the very query whose time is stored; and that nothing reachable from the query "
+        "writes state that outlives the call (a stored time equals a later query only if the query is a function of its arguments).")
     T = Timing(ctx)
     rg = rep.rule("guards", "G1/G2 are exactly {hint > last}, {events[hint].tick > tick}; both ValueError; before every return", floor=2)
     rs = rep.rule("scan", "S2: range(hint, last), predicate events[i+1].tick > tick, returns i, default last", floor=1)
@@ -36,6 +37,11 @@ def run(ctx, rep):
     ro = rep.rule("order", "tempo ticks strictly increasing (so g(t) is well defined)", floor=4)
     ra = rep.rule("accumulate", "tempo event construction", floor=2)
     T.check_accumulate(ra, ro)
+    rpu = rep.rule("pure-query", "the query, its index function and the seconds function write nothing that outlives the call: the "
+                                 "same (tick, tempo map) gives the same time at parse time and when queried later", floor=3)
+    from .effects_lib import check_pure_reachable
+    check_pure_reachable(ctx, rpu, ["chartparse.sync.BPMEvents.timestamp_at_tick",
+                                    "chartparse.sync.BPMEvents.timestamp_at_tick_no_optimize_return"])
     rch = rep.rule("chain", "file -> lines (read().splitlines(), utf-8-sig) -> framing -> section route -> dispatcher -> builders: every link "
                             "hands the lines on unchanged", floor=10)
     from .chain import check_chain
